@@ -799,6 +799,34 @@ static void run_one(GModel &m, long id, int fmt, bool comments, bool bf, int cs,
   ++stat_runs;
   m.h.arith_kind = saved_arith;
 }
+// file-size family: pad the problem name (header comment, present in text and binary) so that the written .nl file is
+// exactly a multiple of the page size (+ delta): NLFileReader then takes its non-mmap path (size == rounded size) or the
+// mmap path with 1 / 4095 bytes in the last page.
+#include <sys/stat.h>
+static long file_size(const std::string &fn) { struct stat st; return ::stat(fn.c_str(), &st) == 0 ? (long)st.st_size : -1; }
+static long stat_padded[3] = {0, 0, 0}, stat_pad_miss = 0;
+static void run_padded(GModel &m, long id, int fmt, bool comments, bool bf, int cs, int delta, int reader_flags) {
+  std::string saved = m.prob_name;
+  m.h.format = fmt; m.comments = comments; m.bounds_first = bf; m.colsizes = cs;
+  int saved_arith = m.h.arith_kind;
+  if (fmt == mp::NLHeader::BINARY) m.h.arith_kind = mp::arith::GetKind();
+  std::string base = g_dir + "/m";
+  { GenFeeder feeder(m); mp::NLUtils utils; mp::WriteNLFile(base, feeder, utils); }
+  m.h.arith_kind = saved_arith;
+  long s0 = file_size(base + ".nl");
+  if (s0 > 0) {
+    const long page = 4096;
+    long target = ((s0 + page - 1) / page) * page + delta;
+    while (target < s0) target += page;
+    m.prob_name = saved + std::string((size_t)(target - s0), 'p');
+    run_one(m, id, fmt, comments, bf, cs, reader_flags);
+    long s1 = file_size(base + ".nl");
+    if (s1 == target) ++stat_padded[delta + 1]; else ++stat_pad_miss;
+    std::printf("# padded fmt=%d delta=%d size=%ld target=%ld\n", fmt, delta, s1, target);
+  }
+  m.prob_name = saved;
+}
+
 static void check_names(const GModel &m) {
   std::string base = g_dir + "/m";
   auto one = [&](const char *ext, const std::vector<std::string> &fed) {
@@ -977,6 +1005,10 @@ int main(int argc, char **argv) {
       run_one(m, id, fmt, c, bf, cs, 0);
       if ((ncomb + k) % 5 == 0) run_one(m, id, fmt, c, bf, cs, mp::READ_BOUNDS_FIRST);
     }
+    if (thorough ? k % 3 == 0 : k % 8 == 0) {     // page-size family
+      for (int fmt = 0; fmt < 2; ++fmt) for (int delta = -1; delta <= 1; ++delta)
+        run_padded(m, id, fmt, (k / 8) % 2, (k / 16) % 2 == 0, (int)(k % 3), delta, delta == 0 && (k / 8) % 3 == 0 ? mp::READ_BOUNDS_FIRST : 0);
+    }
     check_names(m);
     ++id;
     hist["nv=" + itos(std::min(m.h.num_vars, 10))]++;
@@ -984,6 +1016,7 @@ int main(int argc, char **argv) {
   codec_test(thorough ? 20000000 : 1000000);
   codec_boundary_test(thorough ? 12000000 : 450000);
   std::printf("# models=%ld runs=%ld expr_nodes=%ld\n", stat_models, stat_runs, stat_nodes);
+  std::printf("# pagesize-runs size%%4096==4095:%ld ==0:%ld ==1:%ld missed:%ld\n", stat_padded[0], stat_padded[1], stat_padded[2], stat_pad_miss);
   for (int i = 0; i < NOPS; ++i) std::printf("# opused %s %ld\n", OPS[i].name, op_used[i]);
   for (int i = 0; i < 14; ++i) std::printf("# dblclass %d %ld\n", i, dbl_class[i]);
   for (auto &kv : hist) std::printf("# hist %s %ld\n", kv.first.c_str(), kv.second);
